@@ -41,6 +41,47 @@ from typing import Iterable
 
 import numpy as np
 import sympy as sym
+from sympy.printing.str import StrPrinter
+
+
+def _starts_with_power(text):
+    """Checks whether a printed expression starts with an operand that is raised to a power."""
+    depth = 0
+    for idx, char in enumerate(text):
+        if char in "([{":
+            depth += 1
+        elif char in ")]}":
+            depth -= 1
+        elif depth == 0 and not (char.isalnum() or char in "._"):
+            return text[idx : idx + 2] == "**"
+
+    return False
+
+
+class _BlackbirdExprPrinter(StrPrinter):
+    """Prints a SymPy expression using Blackbird syntax."""
+
+    def _print_Mul(self, expr):
+        res = super()._print_Mul(expr)
+
+        # in Blackbird the unary sign binds tighter than '**', i.e., -x**2 is (-x)**2,
+        # so a negated product that starts with a power needs brackets
+        if res.startswith("-") and _starts_with_power(res[1:]):
+            res = "-({})".format(res[1:])
+
+        return res
+
+
+def sympy_to_blackbird(expr):
+    """Converts a SymPy expression to a string containing the equivalent Blackbird expression.
+
+    Args:
+        expr (sympy.Expr): a SymPy expression
+
+    Returns:
+        str: the expression in Blackbird syntax
+    """
+    return _BlackbirdExprPrinter().doprint(expr)
 
 
 def numpy_to_blackbird(A, var_name):
@@ -111,7 +152,7 @@ def _format_value(v):
         # are renamed (rather than their names replaced in the printed text), so
         # that names contained in other names or in printed numbers stay intact.
         braced = {p: sym.Symbol("{" + str(p) + "}") for p in v.free_symbols}
-        return str(v.xreplace(braced))
+        return sympy_to_blackbird(v.xreplace(braced))
 
     # booleans, ints, floats
     return "{}".format(v)
